@@ -8,4 +8,5 @@ let lookup (p : string) : Model.sexp -> Model.sexp =
   | "c18" -> Model.run_c18
   | "c01" -> Model.run_c01
   | "c06" -> Model.run_c06
+  | "c08" -> Model.run_c08
   | _ -> failwith ("unknown property " ^ p)
